@@ -70,7 +70,9 @@ M("exi1-referents-before", "C01", LL, "    exiting = currently_exiting_context(f
   "    exiting = currently_exiting_context(frame)\n    if exiting is not None:\n        ret.append(Context(obj=None, is_async=exiting.is_async, is_exiting=True))\n    ret.reverse()\n    return ret", "EXI-1")
 M("join1-level-off", "C01", LL, "obj=frame_details.stack[block.level - 1].__self__,", "obj=frame_details.stack[block.level].__self__,", "JOIN-1")
 M("join1-reversed", "C01", LL, "block for block in frame_details.blocks if block.handler in with_block_info", "block for block in reversed(frame_details.blocks) if block.handler in with_block_info", "JOIN-1")
-M("join1-exiting-unconditional", "C01", LL, "    if exiting is not None:\n        ret.append(replace(with_block_info", "    if exiting:\n        ret.append(replace(with_block_info", "JOIN-1")
+# `if exiting:` is the same test as `if exiting is not None:` (ExitingContext is a plain dataclass): a twin, not a mutant (it was listed as a mutant until round 5)
+T("join1-twin-exiting-truthiness", "C01", LL, "    if exiting is not None:\n        ret.append(replace(with_block_info", "    if exiting:\n        ret.append(replace(with_block_info")
+M("join1-exiting-unconditional", "C01", LL, "    if exiting is not None:\n        ret.append(replace(with_block_info", "    if True:\n        ret.append(replace(with_block_info", ["JOIN-1", "DEF-1", "CONT-7"], accept_analysis_error=True)
 
 # ---------------------------------------------------------------- C02: OPC-1, EXI-2
 M("f1-reverted", "C02", LL, '''        else:
